@@ -287,6 +287,81 @@ func (c *c09Rig) listAndRead() {
 	e.Probe("listed_and_read_back")
 }
 
+// renew replaces the contract by a renewal or a refresh: the host's roots for
+// the new contract are those of the old one, matching what the new contract
+// commits to; a refused renewal leaves the old contract as it was.
+func (c *c09Rig) renew() {
+	e := c.e
+	e.Step()
+	op := []string{"renew", "refresh-full", "refresh-partial"}[e.Intn(3)]
+	before, err := c.hostState(c.contract.ID)
+	if err != nil {
+		e.Violationf("C09.host-state", "lock", "cannot read the host's contract state: %v", err)
+	}
+	allowance, collateral := types.Siacoins(uint32(e.Range(50, 300))), types.Siacoins(uint32(e.Range(50, 300)))
+	if min := proto4.MinRenterAllowance(c.prices, collateral); allowance.Cmp(min) < 0 {
+		allowance = min.Mul64(2)
+	}
+	ctx := context.Background()
+	var got rhp4.ContractRevision
+	var rerr error
+	e.Guard("C09.panic", "RPC "+op, func() {
+		switch op {
+		case "renew":
+			var res rhp4.RPCRenewContractResult
+			res, rerr = rhp4.RPCRenewContract(ctx, c.tr, c.rs.cm, c.signer, c.cs(), c.prices, c.hw.Address(), c.contract.Revision, proto4.RPCRenewContractParams{
+				ContractID: c.contract.ID, Allowance: allowance, Collateral: collateral, ProofHeight: c.contract.Revision.ProofHeight + uint64(e.Range(1, 50)),
+			})
+			got = res.Contract
+		case "refresh-full":
+			var res rhp4.RPCRefreshContractResult
+			res, rerr = rhp4.RPCRefreshContractFullRollover(ctx, c.tr, c.rs.cm, c.signer, c.cs(), c.prices, c.hw.Address(), c.contract.Revision, proto4.RPCRefreshContractParams{
+				ContractID: c.contract.ID, Allowance: allowance, Collateral: collateral,
+			})
+			got = res.Contract
+		case "refresh-partial":
+			var res rhp4.RPCRefreshContractResult
+			res, rerr = rhp4.RPCRefreshContractPartialRollover(ctx, c.tr, c.rs.cm, c.signer, c.cs(), c.prices, c.hw.Address(), c.contract.Revision, proto4.RPCRefreshContractParams{
+				ContractID: c.contract.ID, Allowance: allowance, Collateral: collateral,
+			})
+			got = res.Contract
+		}
+	})
+	waitQuiet()
+	e.Logf("%s with %d roots -> err=%v", op, len(c.model), rerr)
+	e.Shape(op, fmt.Sprint(rerr != nil), bucket(len(c.model)))
+	if rerr != nil {
+		// the host's policy may refuse (collateral limits); nothing changed then
+		after, err := c.hostState(c.contract.ID)
+		if err != nil {
+			e.Violationf("C09.host-state", "lock-after", "cannot read the host's contract state after a refused %s: %v", op, err)
+		}
+		if !bytes.Equal(gen.Enc(before.Revision), gen.Enc(after.Revision)) || fmt.Sprint(before.Roots) != fmt.Sprint(after.Roots) {
+			e.Violationf("C09.abandoned-leaves-state", op, "%s failed (%v), yet the host's state of the contract changed: revision %d -> %d, roots %v -> %v", op, rerr, before.Revision.RevisionNumber, after.Revision.RevisionNumber, short(before.Roots), short(after.Roots))
+		}
+		e.Probe("renewal_refused")
+		c.resync()
+		return
+	}
+	c.mine(1)
+	c.refreshPrices()
+	c.contract = got
+	after, err := c.hostState(got.ID)
+	if err != nil {
+		e.Violationf("C09.host-state", "renewed", "cannot read the host's state of the contract made by %s: %v", op, err)
+	}
+	if err := rootsMatchRevision(after); err != nil {
+		e.Violationf("C09.roots-match-revision", op, "after %s of a contract with %d sectors: %v", op, len(c.model), err)
+	}
+	if fmt.Sprint(after.Roots) != fmt.Sprint(c.model) {
+		e.Violationf("C09.list-model", op, "after %s the host's roots for the new contract are %v, the old contract had %v", op, short(after.Roots), short(c.model))
+	}
+	if !bytes.Equal(gen.Enc(got.Revision), gen.Enc(after.Revision)) {
+		e.Violationf("C09.same-revision", op, "the renter's %s returned a contract that differs from the one the host holds", op)
+	}
+	e.Probe("contract_renewed_with_sectors")
+}
+
 const c09Parts = 64
 
 func runC09(e *sim.Env) {
@@ -389,6 +464,9 @@ func runC09(e *sim.Env) {
 			}
 			c.attempt("free", nil, idx, kind)
 		}
+		if e.Chance(1, 8) {
+			c.renew()
+		}
 		if e.Chance(1, 5) {
 			c.listAndRead()
 		}
@@ -399,7 +477,7 @@ func runC09(e *sim.Env) {
 func init() {
 	register(&Prop{
 		ID: "C09", Run: runC09, Quick: 160, Thorough: 4000, Level: "fault_enumeration",
-		Rule:        "runs 0..63 enumerate (partitioned) every contract size 0-6 x every index sequence with repetition of length 1-3 (plus 'all') passed to the real RPCFreeSectors client x every abort point of the exchange {none, request dropped, first response dropped, stream cut after first response, renter signature dropped / corrupted / truncated mid-message, host signature dropped after the host persisted}, and appends (known and unknown roots) x the same abort points; later runs draw append/free sequences up to 40 sectors with drawn aborts; after every attempt: MetaRoot(host roots) == FileMerkleRoot and count*SectorSize == Filesize of the host's committed revision, an attempt the host did not commit leaves revision and roots byte-identical, a committed one equals the list model, renter success implies the same revision on both sides; roots listed with RPCSectorRoots verify and match, every listed sector reads back; distinct = abstract trace (op, abort kind, outcome, size bucket); all runs non-trivial",
+		Rule:        "runs 0..63 enumerate (partitioned) every contract size 0-6 x every index sequence with repetition of length 1-3 (plus 'all') passed to the real RPCFreeSectors client x every abort point of the exchange {none, request dropped, first response dropped, stream cut after first response, renter signature dropped / corrupted / truncated mid-message, host signature dropped after the host persisted}, and appends (known and unknown roots) x the same abort points; later runs draw append/free sequences up to 40 sectors with drawn aborts, and renew / refresh (full, partial) the contract in between, after which the new contract's roots have to be the old one's; after every attempt: MetaRoot(host roots) == FileMerkleRoot and count*SectorSize == Filesize of the host's committed revision, an attempt the host did not commit leaves revision and roots byte-identical, a committed one equals the list model, renter success implies the same revision on both sides; roots listed with RPCSectorRoots verify and match, every listed sector reads back; distinct = abstract trace (op, abort kind, outcome, size bucket); all runs non-trivial",
 		Real:        []string{"rhp4.Server", "rhp4 RPC* client functions", "wallet.SingleAddressWallet x2", "chain.Manager", "testutil.EphemeralContractor / EphemeralSectorStore (in-repo reference implementations) behind recording wrappers"},
 		Stub:        []string{"transport: simrhp in-memory streams with typed relay (siamux/QUIC are not the subject)", "disk: simdisk.DB"},
 		Assumptions: []string{"the 'simple list model' is applied to the indices as the real client normalises them (descending, duplicates once)"},
